@@ -20,6 +20,7 @@ package main
 import (
 	"fmt"
 	"math/big"
+	"math/bits"
 	"runtime"
 	"sync"
 
@@ -94,7 +95,7 @@ func limbLimit(b bound, i int) uint64 {
 type scratch struct {
 	t, u, r *big.Int
 	h, h2   *big.Int
-	words   [8]big.Word
+	words   [16]big.Word // 8 on 64-bit platforms, 16 where big.Word is 32 bits
 	lb, lb2 [nl]uint64
 	be      [32]byte
 	got     [32]byte
@@ -144,12 +145,24 @@ func (s *scratch) limbInt(l []uint64, dst *big.Int) *big.Int {
 			acc[k], c = add64(acc[k], 0, c)
 		}
 	}
-	for i := range acc {
-		s.words[i] = big.Word(acc[i])
-	}
 	// copy: SetBits aliases its argument
-	dst.SetBits(append(dst.Bits()[:0], s.words[:]...))
+	dst.SetBits(append(dst.Bits()[:0], s.fillWords(acc[:])...))
 	return dst
+}
+
+// fillWords spreads 64-bit accumulator words over big.Words of the platform's width.
+func (s *scratch) fillWords(acc []uint64) []big.Word {
+	if bits.UintSize == 64 {
+		for i, a := range acc {
+			s.words[i] = big.Word(a)
+		}
+		return s.words[:len(acc)]
+	}
+	for i, a := range acc {
+		s.words[2*i] = big.Word(uint32(a))
+		s.words[2*i+1] = big.Word(uint32(a >> 32))
+	}
+	return s.words[:2*len(acc)]
 }
 
 func add64(x, y, c uint64) (uint64, uint64) {
